@@ -160,10 +160,10 @@ class SizeUnit(Unit):
     )
 
     def shapes(self, tier):
-        return [(action, interp) for action in ('resize', 'maxsize', 'minsize') for interp in ('N', 'C', 'L', None)]
+        return [(action, interp, am) for action in ('resize', 'maxsize', 'minsize') for interp, am in (('N', 'sym'), ('C', 'sym'), ('L', 'sym'), (None, 'sym'), (None, 'absent'))]
 
     def run(self, shape, dec):
-        action, interp = shape
+        action, interp, amode = shape
         h, w, H, W = z3.Ints('h w H W')
         aspect = z3.Bool('aspect')
         ex = new_exec(dec, UTIL, assumptions=dims_pre(h, w, H, W))
@@ -173,6 +173,9 @@ class SizeUnit(Unit):
         src = image(h, w, 3)
         frame = Obj('Frame', image=src, format=fmt, data=None)
         items = dict(action=action, width=W, height=H, aspect=aspect)
+        if amode == 'absent':       # the 'x' form as normalize_config writes it: no aspect key => aspect kept
+            del items['aspect']
+            ex.assume(aspect)
         if interp is not None:
             items['interp'] = interp
         xform = adict(**items)
@@ -361,7 +364,7 @@ class VideoReaderUnit(Unit):
     targets = (f'{VIN}::VideoReader.thread_reader',)
     required_covers = ('cv2.resize called', 'frame queued')
     mutants = (
-        ('video maxsize: min->max', f'{VIN}::VideoReader.thread_reader', 'h = int(h * (s := min(width / w, height / h)))', 'h = int(h * (s := max(width / w, height / h)))', 'C17.'),
+        ('video maxsize: min->max', f'{VIN}::VideoReader.thread_reader', '(s := min(width / w, height / h))', '(s := max(width / w, height / h))', 'C17.'),
         ('video resize: width/height swapped', f'{VIN}::VideoReader.thread_reader', 'newsize = (width, height)', 'newsize = (height, width)', 'C17.resize_exact'),
         ('video maxsize: clamp dropped', f'{VIN}::VideoReader.thread_reader', '(min(width, w), min(height, h))', '(w, h)', 'C17.'),
     )
